@@ -574,6 +574,277 @@ def directed(w):
     ]
 
 
+# ---------------- expression trees owned by the harness: printed with MINIMAL parentheses ----------------
+# The harness chooses the TREE, prints it with parentheses only where the documented precedence / associativity
+# (coq/Spec/ExprSpec.v: doc_precedence, read at run time, fail closed) requires them, and hands the tree itself to Coq
+# as the program's AST: the expected words are computed from the TREE by the spec (eval_expr inside check_denotes and
+# Layout.v), never by re-parsing.  A parser that groups operators differently produces other words -> violation.
+# tree := ('lit', v) | ('lbl', name) | ('par', tree) | ('un', op, t) | ('bin', op, a, b) | ('cond', c, a, b)
+import re as _re
+from pathlib import Path as _Path
+
+BIN_TOKEN = {'+': '+', '-': '-', '*': '*', '/': '/', '%': '%', '**': 'POW', '<<': 'SHL', '>>': 'SHR', '^': '^', '|': '|',
+             '&': '&', '&&': 'LAND', '||': 'LOR', '<': '<', '>': '>', '<=': 'LE', '>=': 'GE', '==': 'EQ', '!=': 'NEQ'}
+UN_TOKEN = {'-': 'UMINUS', '~': 'UNOT', '#': '#'}
+BIN_OPS = list(BIN_TOKEN)
+UN_OPS = list(UN_TOKEN)
+_PREC = None
+
+
+def doc_precedence():
+    """token name -> (row, assoc) from Spec/ExprSpec.v (row 1 binds weakest)"""
+    global _PREC
+    if _PREC is None:
+        text = (_Path(__file__).resolve().parents[2] / 'coq' / 'Spec' / 'ExprSpec.v').read_text()
+        m = _re.search(r'Definition doc_precedence[^=]*:=\s*\[(.*?)\]\s*\.', text, _re.S)
+        if not m:
+            raise RuntimeError('doc_precedence not found in Spec/ExprSpec.v')
+        rows = _re.findall(r'\((LeftA|RightA|NonA),\s*\[([^\]]*)\]\)', m.group(1))
+        tbl = {}
+        for r, (a, names) in enumerate(rows, 1):
+            for nm in _re.findall(r'"([^"]+)"', names):
+                tbl[nm] = (r, {'LeftA': 'left', 'RightA': 'right', 'NonA': 'non'}[a])
+        need = set(BIN_TOKEN.values()) | set(UN_TOKEN.values()) | {'?'}
+        if not need <= set(tbl) or len(rows) != 14:
+            raise RuntimeError(f'doc_precedence of Spec/ExprSpec.v has an unexpected shape: {sorted(tbl)}')
+        _PREC = tbl
+    return _PREC
+
+
+def t_level(t):
+    P = doc_precedence()
+    k = t[0]
+    if k in ('lit', 'lbl', 'par'):
+        return 99
+    if k == 'un':
+        return P[UN_TOKEN[t[1]]][0]
+    if k == 'bin':
+        return P[BIN_TOKEN[t[1]]][0]
+    return P['?'][0]
+
+
+def t_text(t):
+    """source text with parentheses only where precedence / associativity needs them"""
+    P = doc_precedence()
+    k = t[0]
+    if k == 'lit':
+        return str(t[1])
+    if k == 'lbl':
+        return t[1]
+    if k == 'par':
+        return '(' + t_text(t[1]) + ')'
+    par = lambda x: '(' + t_text(x) + ')'
+    if k == 'un':
+        x = t[2]
+        xs = par(x) if t_level(x) < t_level(t) else t_text(x)
+        return t[1] + (' ' if xs[0] in '-~#' else '') + xs
+    if k == 'bin':
+        p, assoc = P[BIN_TOKEN[t[1]]]
+        a, b = t[2], t[3]
+        la, lb = t_level(a), t_level(b)
+        as_ = par(a) if la < p or (la == p and assoc != 'left') else t_text(a)
+        if b[0] == 'un':
+            bs = t_text(b)                 # a prefix operator needs no parentheses as a right operand
+        else:
+            bs = par(b) if lb < p or (lb == p and assoc != 'right') else t_text(b)
+        return f'{as_} {t[1]} {bs}'
+    c, a, b = t[1], t[2], t[3]
+    cs = par(c) if c[0] == 'cond' else t_text(c)
+    as_ = par(a) if a[0] == 'cond' else t_text(a)
+    return f'{cs} ? {as_} : {t_text(b)}'
+
+
+def t_ast(t):
+    """the tree in the JSON expression format of dump_tree.py (what the parser must produce, up to folding)"""
+    k = t[0]
+    if k == 'lit':
+        return t[1]
+    if k == 'lbl':
+        return t[1]
+    if k == 'par':
+        return t_ast(t[1])
+    if k == 'un':
+        return ['-', [0, t_ast(t[2])]] if t[1] == '-' else [t[1], [t_ast(t[2])]]
+    if k == 'bin':
+        return [t[1], [t_ast(t[2]), t_ast(t[3])]]
+    return ['?:', [t_ast(t[1]), t_ast(t[2]), t_ast(t[3])]]
+
+
+def t_eval(t, env):
+    """generator-side evaluation, used ONLY to pick operands (defined values, discriminating ones); None = error/too big"""
+    k = t[0]
+    if k == 'lit':
+        return t[1]
+    if k == 'lbl':
+        return env.get(t[1])
+    if k == 'par':
+        return t_eval(t[1], env)
+    vs = [t_eval(x, env) for x in t[1 if k == 'cond' else 2:]]
+    if any(v is None for v in vs):
+        return None
+    if k == 'cond':
+        return vs[1] if vs[0] else vs[2]
+    op = t[1]
+    try:
+        if k == 'un':
+            x = vs[0]
+            return -x if op == '-' else ~x if op == '~' else x.bit_length()
+        a, b = vs
+        if op in ('**', '<<') and not 0 <= b <= 64:
+            return None
+        if op == '**' and abs(a) > 64:
+            return None
+        if op == '>>' and b < 0:
+            return None
+        r = {'+': lambda: a + b, '-': lambda: a - b, '*': lambda: a * b, '/': lambda: a // b, '%': lambda: a % b,
+             '**': lambda: a ** b, '<<': lambda: a << b, '>>': lambda: a >> b, '^': lambda: a ^ b, '|': lambda: a | b,
+             '&': lambda: a & b, '&&': lambda: int(bool(a and b)), '||': lambda: int(bool(a or b)),
+             '<': lambda: int(a < b), '>': lambda: int(a > b), '<=': lambda: int(a <= b), '>=': lambda: int(a >= b),
+             '==': lambda: int(a == b), '!=': lambda: int(a != b)}[op]()
+        return r if abs(r) < (1 << 200) else None
+    except (ZeroDivisionError, ValueError, OverflowError):
+        return None
+
+
+def _fill(shape, vals, labelled):
+    """shape with operand holes ('x', i) -> tree; labelled: write operands as (z + v) with the label z = 0"""
+    k = shape[0]
+    if k == 'x':
+        v = vals[shape[1]]
+        if not labelled:
+            return ('lit', v)
+        return ('lbl', 'z') if v == 0 else ('par', ('bin', '+', ('lbl', 'z'), ('lit', v)))
+    if k == 'un':
+        return ('un', shape[1], _fill(shape[2], vals, labelled))
+    if k == 'bin':
+        return ('bin', shape[1], _fill(shape[2], vals, labelled), _fill(shape[3], vals, labelled))
+    return ('cond', _fill(shape[1], vals, labelled), _fill(shape[2], vals, labelled), _fill(shape[3], vals, labelled))
+
+
+def _ops_of(shape):
+    if shape[0] == 'x':
+        return []
+    return ([shape[1]] if shape[0] in ('un', 'bin') else ['?:']) + [o for c in shape[1 if shape[0] == 'cond' else 2:]
+                                                                     for o in _ops_of(c)]
+
+
+def _regroupings(shape):
+    """the other ways to group the same operator / operand sequence (what a wrong precedence table would build)"""
+    k = shape[0]
+    out = []
+    if k == 'bin' and shape[2][0] == 'bin':        # (x o2 y) o1 z  ->  x o2 (y o1 z)
+        i = shape[2]
+        out.append(('bin', i[1], i[2], ('bin', shape[1], i[3], shape[3])))
+    if k == 'bin' and shape[3][0] == 'bin':        # x o1 (y o2 z)  ->  (x o1 y) o2 z
+        i = shape[3]
+        out.append(('bin', i[1], ('bin', shape[1], shape[2], i[2]), i[3]))
+    if k == 'un' and shape[2][0] == 'bin':         # u (x o y) -> (u x) o y
+        i = shape[2]
+        out.append(('bin', i[1], ('un', shape[1], i[2]), i[3]))
+    if k == 'bin' and shape[2][0] == 'un':         # (u x) o y -> u (x o y)
+        out.append(('un', shape[2][1], ('bin', shape[1], shape[2][2], shape[3])))
+    if k == 'bin' and shape[3][0] == 'cond':       # x o (c ? a : b) -> (x o c) ? a : b
+        i = shape[3]
+        out.append(('cond', ('bin', shape[1], shape[2], i[1]), i[2], i[3]))
+    if k == 'cond' and shape[3][0] == 'bin':       # c ? a : (x o y) -> (c ? a : x) o y
+        i = shape[3]
+        out.append(('bin', i[1], ('cond', shape[1], shape[2], i[2]), i[3]))
+    if k == 'cond' and shape[1][0] == 'bin':       # (x o y) ? a : b -> x o (y ? a : b)
+        i = shape[1]
+        out.append(('bin', i[1], i[2], ('cond', i[3], shape[2], shape[3])))
+    return out
+
+
+def _choose_operands(rng, shape, nholes, mask):
+    """operand values for which the tree has a value and, when possible, every regrouping has another one"""
+    small = any(o in ('**', '<<', '>>') for o in _ops_of(shape))
+    pool = [0, 1, 2, 3] if small else [0, 1, 2, 3, 5, 6, 7, 9, 12, 13]
+    alts = _regroupings(shape)
+    best = None
+    for _ in range(60):
+        vals = [rng.choice(pool) for _ in range(nholes)]
+        v = t_eval(_fill(shape, vals, False), {})
+        if v is None:
+            continue
+        score = sum(1 for a in alts if (lambda x: x is None or (x & mask) != (v & mask))(t_eval(_fill(a, vals, False), {})))
+        if best is None or score > best[0]:
+            best = (score, vals)
+        if score == len(alts):
+            break
+    return best[1] if best else None
+
+
+def precedence_shapes(rng, nrandom=160):
+    """every ordered pair of operators in both nesting positions, unary and ternary combinations, random deeper trees"""
+    X = lambda i: ('x', i)
+    shapes = []
+    for o1 in BIN_OPS:
+        for o2 in BIN_OPS:
+            shapes.append((('bin', o1, ('bin', o2, X(0), X(1)), X(2)), 3))
+            shapes.append((('bin', o1, X(0), ('bin', o2, X(1), X(2))), 3))
+    for u in UN_OPS:
+        for o in BIN_OPS:
+            shapes.append((('un', u, ('bin', o, X(0), X(1))), 2))
+            shapes.append((('bin', o, ('un', u, X(0)), X(1)), 2))
+            shapes.append((('bin', o, X(0), ('un', u, X(1))), 2))
+        for u2 in UN_OPS:
+            shapes.append((('un', u, ('un', u2, X(0))), 1))
+        shapes.append((('un', u, ('cond', X(0), X(1), X(2))), 3))
+        shapes.append((('cond', ('un', u, X(0)), X(1), X(2)), 3))
+        shapes.append((('cond', X(0), ('un', u, X(1)), X(2)), 3))
+        shapes.append((('cond', X(0), X(1), ('un', u, X(2))), 3))
+    for o in BIN_OPS:
+        shapes.append((('cond', ('bin', o, X(0), X(1)), X(2), X(3)), 4))
+        shapes.append((('cond', X(0), ('bin', o, X(1), X(2)), X(3)), 4))
+        shapes.append((('cond', X(0), X(1), ('bin', o, X(2), X(3))), 4))
+        shapes.append((('bin', o, ('cond', X(0), X(1), X(2)), X(3)), 4))
+        shapes.append((('bin', o, X(0), ('cond', X(1), X(2), X(3))), 4))
+    shapes.append((('cond', ('cond', X(0), X(1), X(2)), X(3), X(4)), 5))
+    shapes.append((('cond', X(0), ('cond', X(1), X(2), X(3)), X(4)), 5))
+    shapes.append((('cond', X(0), X(1), ('cond', X(2), X(3), X(4))), 5))
+
+    def rnd(depth, ctr):
+        r = rng.random()
+        if depth == 0 or r < 0.2:
+            ctr[0] += 1
+            return X(ctr[0] - 1)
+        if r < 0.35:
+            return ('un', rng.choice(UN_OPS), rnd(depth - 1, ctr))
+        if r < 0.45:
+            return ('cond', rnd(depth - 1, ctr), rnd(depth - 1, ctr), rnd(depth - 1, ctr))
+        return ('bin', rng.choice(BIN_OPS), rnd(depth - 1, ctr), rnd(depth - 1, ctr))
+    for _ in range(nrandom):
+        ctr = [0]
+        shapes.append((rnd(rng.choice([2, 3, 3]), ctr), ctr[0]))
+    return shapes
+
+
+def gen_precedence_jobs(rng, per_program=24):
+    """programs `z:` + `;(EXPR) & MASK` lines; job['ast'] = the harness's own statement list (dump_tree JSON format)"""
+    shapes = precedence_shapes(rng)
+    items = []                                       # (w, labelled, tree)
+    for n, (shape, holes) in enumerate(shapes):
+        for labelled in (False, True):
+            w = 16 if (n + labelled) % 2 == 0 else 64
+            vals = _choose_operands(rng, shape, holes, (1 << w) - 1)
+            if vals is not None:
+                items.append((w, labelled, _fill(shape, vals, labelled)))
+    jobs = []
+    for w in (16, 64):
+        mine = [it for it in items if it[0] == w]
+        for b in range(0, len(mine), per_program):
+            part = mine[b:b + per_program]
+            mask = (1 << w) - 1
+            pos = lambda ln: {'file': 'f1.fj', 'short': 'f1', 'line': ln}
+            lines, ast = ['z:'], [{'t': 'Label', 'name': 'z', 'pos': pos(1)}]
+            for k, (_, _, tree) in enumerate(part):
+                lines.append(f';({t_text(tree)}) & {mask}')
+                ast.append({'t': 'FlipJump', 'flip': 0, 'jump': ['&', [t_ast(tree), mask]], 'pos': pos(k + 2)})
+            jobs.append({'src': '\n'.join(lines) + '\n', 'w': w, 'version': rng.choice([0, 1, 2, 3]), 'ast': ast,
+                         'features': ['directed:operator-precedence']})
+    return jobs
+
+
 def gen_jobs(rng, n, directed_too=True):
     jobs = []
     if directed_too:
@@ -581,6 +852,7 @@ def gen_jobs(rng, n, directed_too=True):
             for name, src in directed(w):
                 for v in ((0, 2) if w in (8, 64) else (1, 3)):
                     jobs.append({'src': src, 'w': w, 'version': v, 'features': ['directed:' + name]})
+        jobs += gen_precedence_jobs(rng)
     while len(jobs) < n:
         w = rng.choice([8, 16, 32, 64])
         fault = rng.choice(FAULTS) if rng.random() < 0.25 else None
